@@ -70,6 +70,9 @@ func NewPool(n int, driverBin string) (*Pool, error) {
 		}
 	}
 	p := &Pool{driverBin: driverBin, JobTimeout: 300 * time.Second}
+	if v, err := time.ParseDuration(os.Getenv("O4PAIR_JOB_TIMEOUT")); err == nil && v > 0 {
+		p.JobTimeout = v
+	}
 	for i := 0; i < n; i++ {
 		w, err := p.spawn()
 		if err != nil {
